@@ -241,15 +241,37 @@ def checkObject (rec : J → J → Bool) (schema : J) (kvs : List (String × J))
     | some (.arr rs) => rs.all fun r => match r with | .str k => (kvs.lookup k).isSome | _ => true
     | _ => true) &&
   (let props : List (String × J) := match schema.get "properties" with | some (.obj ps) => ps | _ => []
-   kvs.all fun (k, x) => match props.lookup k with
+   -- `patternProperties`: every pattern the member's name matches applies; a member matched by `properties` or by a
+   -- pattern is not "additional"
+   let pats : List (String × J) := match schema.get "patternProperties" with | some (.obj ps) => ps | _ => []
+   let matching (k : String) : List J := pats.filterMap fun (p, s') =>
+     match parseRegex p with
+     | some r => if regexMatches r k then some s' else none
+     | none => none
+   kvs.all fun (k, x) =>
+      (matching k).all (fun s' => rec s' x) &&
+      (match props.lookup k with
       | some s' => rec s' x
-      | none => match schema.get "additionalProperties" with
-        | some s' => rec s' x
-        | none => true) &&
+      | none =>
+        if (matching k).isEmpty then
+          match schema.get "additionalProperties" with
+          | some s' => rec s' x
+          | none => true
+        else true)) &&
+
   -- `propertyNames`: every member name, as a string instance
   (match schema.get "propertyNames" with
     | some s' => kvs.all fun (k, _) => rec s' (.str k)
     | none => true)
+
+/-- `dependentRequired` (2019-09 on; an unknown word under draft-07): when the member is present, so are the ones it names -/
+def checkDependentRequired (draft : Draft) (schema : J) (kvs : List (String × J)) : Bool :=
+  match draft, schema.get "dependentRequired" with
+  | .d2020, some (.obj ds) => ds.all fun (k, need) =>
+      match kvs.lookup k, need with
+      | some _, .arr ns => ns.all fun n => match n with | .str m => (kvs.lookup m).isSome | _ => true
+      | _, _ => true
+  | _, _ => true
 
 def checkCombinators (rec : J → J → Bool) (schema v : J) : Bool :=
   (match schema.get "allOf" with
@@ -276,7 +298,7 @@ def checkKeywords (draft : Draft) (rec : J → J → Bool) (schema v : J) : Bool
   (match v with
     | .str s => checkString schema s
     | .arr xs => checkArray draft rec schema xs
-    | .obj kvs => checkObject rec schema kvs
+    | .obj kvs => checkObject rec schema kvs && checkDependentRequired draft schema kvs
     | _ => true) &&
   checkCombinators rec schema v
 
